@@ -134,13 +134,13 @@ class World:
         memo[lab] = h.hexdigest()[:20]
         return memo[lab]
 
-    def compare_outputs(self, clean):
+    def compare_outputs(self, clean, root=None):
         """Compares the working repo's plz-out with a clean build at the clean build's output paths.
         Returns (list of differences (strings), kinds of difference seen)."""
         diffs = []
         kinds = set()
         for p in clean["stdout_paths"]:
-            got = simlib.snapshot(os.path.join(self.repo, p))
+            got = simlib.snapshot(os.path.join(root or self.repo, p))
             want = clean["snaps"][p]
             if got != want:
                 diffs.append(describe_diff(p, got, want))
